@@ -2100,3 +2100,12 @@ package mq
 //@   ensures pwd_some:: result == nil && (q.flags & 64) != 0 && specU16(data[p0], data[p0+1]) != 0 ==> len(q.password) != 0   #C03
 //@   ensures pwd_val:: result == nil && (q.flags & 64) != 0 ==> forall k in 0..len(q.password): q.password[k] == data[p0+2+k]   #C03
 //@   ensures pwd_none:: result == nil && (q.flags & 64) == 0 ==> len(q.password) == 0                                     #C03
+
+// PINGREQ / PINGRESP: two bytes, nothing to decode; the first byte comes back
+//@ func rtPingReq
+//@   requires p != nil && q != nil && p != q && p.fixed == 192
+//@   ensures result == nil && q.fixed == p.fixed                                                    #C01
+
+//@ func rtPingResp
+//@   requires p != nil && q != nil && p != q && p.fixed == 208
+//@   ensures result == nil && q.fixed == p.fixed                                                    #C01
